@@ -258,6 +258,15 @@ func c03Diag(m *gozxing.BitMatrix, ref []bool) string {
 			return "/bars-differ-from-reference"
 		}
 	}
+	// how many white modules does the image leave to the right of the symbol?
+	row := odMatrixRow(m, 0)
+	last := len(row) - 1
+	for last >= 0 && !row[last] {
+		last--
+	}
+	if rq := (len(row) - 1 - last) / k; rq < 7 {
+		return "/bars-match-reference/right-quiet-zone-below-7-modules"
+	}
 	return "/bars-match-reference"
 }
 
@@ -795,7 +804,13 @@ func c03Sweep(r *fw.Rec, s *odUPCEAN, lo, hi, sample int) {
 		for _, content := range contents {
 			form := fmt.Sprint(len(content))
 			data := map[string]interface{}{"symbology": s.name, "content": content, "height": 1, "width": 0}
-			m, err := w.Encode(content, s.format, 0, 1, nil)
+			// UPC-E: the sweep uses a 14-module quiet zone ("any larger margin"); with the default
+			// one the reader refuses every image (open known finding, exercised by the upce/rt cases)
+			var eh map[gozxing.EncodeHintType]interface{}
+			if s == odUPCE {
+				eh = map[gozxing.EncodeHintType]interface{}{gozxing.EncodeHintType_MARGIN: 14}
+			}
+			m, err := w.Encode(content, s.format, 0, 1, eh)
 			if err != nil || m == nil {
 				r.Violation("model-mismatch", s.name+form+".write:rejects-acceptable-content", fmt.Sprintf("%s writer refused %s: %v", s.name, content, err), data)
 				return false
